@@ -22,7 +22,7 @@ EXHAUSTIVE = {"quick": ["integer partitions N=2..12 x 3 element types", "count-v
               "thorough": ["integer partitions N=2..16 x 3 element types", "count-vector pairs K<=3, N1,N2<=5"]}
 REQUIRE = {"pc_one_sample_checked": 100, "pc_two_sample_checked": 100, "pc_table_checked": 30,
            "pc_joint_checked": 30, "pc_n_checked": 100, "tables_with_concat_collision": 3,
-           "tables_with_missing": 3, "legacy_tuple_checked": 3, "legacy_tuple_nonlist_containers": 3, "relabel_checked": 100}
+           "tables_with_missing": 3, "legacy_tuple_checked": 3, "legacy_tuple_nonlist_containers": 3, "relabel_checked": 100, "pc_n_with_zeros_checked": 100}
 SHARDS = {"quick": 4, "thorough": 16}
 
 
@@ -95,6 +95,11 @@ def k_sample(ctx, xs):
     _check_value(ctx, ctx.call(prs.pc_n, np.array(counts)), exp, "pc_n", "pc_n(multiplicities)", counts)
     _check_value(ctx, ctx.call(prs.pc_n, list(counts)), exp, "pc_n:list", "pc_n(list of multiplicities)", counts)
     ctx.count("pc_n_checked")
+    # empty classes (zeros) do not change the value - also when the vector is as long as the sample
+    N = len(xs)
+    for padded in (counts + [0], [0] + counts + [0, 0], (counts + [0] * N)[:max(N, len(counts))]):
+        _check_value(ctx, ctx.call(prs.pc_n, np.array(padded)), exp, "pc_n:zeros", "pc_n(multiplicities with empty classes)", padded)
+        ctx.count("pc_n_with_zeros_checked")
 
 
 def k_two(ctx, xs, ys):
